@@ -197,7 +197,13 @@ def handleWObs (acc : Acc) (h : WHist) (kv : KV) (_line : String) : Acc × WHist
         if (h.seen.filter (fun e => e.1 == p.1)).all (fun e => Spec.C01.recoveryOk p.2.cfg.decimals e.2 p.2.st) then a
         else a.report "SPECFAIL" "C01" s!"{kind}:quote-recovery(v{p.1})" tline) acc
       -- 2. correspondence: model step from the implementation's pre-state
+      -- outside the model's domain: the harness impersonates the engine and calls the insurance fund
+      -- contract directly while the engine itself is configured with ANOTHER fund; the model's
+      -- `.ifWithdraw` stands for the engine's call of the fund it is configured with (a real engine
+      -- would never send this message), so only Spec is evaluated on such a step
+      let impersonated := kind == "ifwithdraw" && sender == ENGINE && h.last.w.engine.cfg.insuranceFund != IFUND
       let acc :=
+        if impersonated then acc.cover s!"{kind}:outside-model(engine-rewired)" else
         match World.applyTx h.last.w env sender funds tx with
         | .ok mw =>
           let acc := acc.cover s!"{kind}:ok"
